@@ -244,6 +244,8 @@ func C07(c *vk.Ctx) {
 	c.Set("state_fault_pairs_covered", int64(len(seen)))
 	// 2. every truncation of valid CRLs
 	n += c07Truncations(c, rng, dir)
+	// 2b. structure-aware mutations of every TLV at every nesting depth (also inside extension values)
+	n += c07Deep(c, rng, dir)
 	// 3. random bytes and random edits, PEM framing faults
 	n += c07Random(c, rng, dir)
 	// 4. attacker-influenced structures reaching the chain matcher (AKI values, directory names)
@@ -288,6 +290,30 @@ func c07Truncations(c *vk.Ctx, rng *rand.Rand, dir string) int {
 				c.Eval(fmt.Sprintf("trunc|%d|%d|%d", si, bi, cut))
 				judgeHostile(c, fmt.Sprintf("reader:truncation:enc=%d", bi), fmt.Sprintf("valid CRL truncated after %d of %d bytes", cut, len(body)), in, o, map[string]any{"sample": si, "cut": cut})
 			}
+		}
+	}
+	return n
+}
+
+func c07Deep(c *vk.Ctx, rng *rand.Rand, dir string) int {
+	n := 0
+	for si, s := range validSamples(rng) {
+		muts := deepMutations(s)
+		for mi, m := range muts {
+			if c.Violations() > 12 {
+				return n
+			}
+			if !c.Thorough() && si > 0 && mi%3 != int(c.Seed)%3 {
+				continue
+			}
+			body := m
+			if mi%5 == 4 {
+				body = derbuild.PEM(m, mi%2 == 0)
+			}
+			o := feedReader(writeCRL(dir, body))
+			n++
+			c.Eval(fmt.Sprintf("deep|%d|%d", si, mi))
+			judgeHostile(c, fmt.Sprintf("reader:deep-mutation:kind=%d", mi%6), "structure-aware mutation of one TLV inside a valid CRL (enclosing lengths kept consistent)", body, o, map[string]any{"sample": si, "mutation": mi})
 		}
 	}
 	return n
